@@ -27,7 +27,7 @@ ASSUMPTIONS = [
 TIMEOUT = {"quick": 900, "thorough": 8 * 3600}
 OPTIMIZED_SHARDS = ("imp00",)  # these shards also run under python -O
 NSH = 16
-REJECT_CLASSES = ["zero_length_line_then_gap", "gap_first", "gap_middle", "gap_before_last_line", "overlap", "nonzero_start", "unknown_tagtype", "page_tagtype_without_base", "no_bf3_marker", "unknown_tagtype_as_continuation_group", "unknown_tagtype_line_inside_group"]
+REJECT_CLASSES = ["zero_length_line_then_gap", "gap_first", "gap_middle", "gap_before_last_line", "overlap", "nonzero_start", "unknown_tagtype", "page_tagtype_without_base", "no_bf3_marker", "no_bf3_marker_and_no_section_converted", "unknown_tagtype_as_continuation_group", "unknown_tagtype_line_inside_group"]
 
 
 def plan(tier, seed):
@@ -431,6 +431,11 @@ def run_import(ns, ctx, spec):
             continue
         elif cls == "no_bf3_marker":
             header.pop("Bf3Update")
+        elif cls == "no_bf3_marker_and_no_section_converted":
+            # a file without the BF3-update marker in which NO section gets as far as being converted: only ignored prepare /
+            # activate sections (and the first variant nothing else at all): still legacy firmware without the marker
+            header.pop("Bf3Update")
+            secs = [gen_ignored(rng, R.IGNORED[(idx + k) % 2]) for k in range(1 + idx % 3)]
         ctx.bin("reject:" + cls)
         text = render_file(rng, ctx, header, secs)
         rp = {"kind": "reject", "text": text if len(text) < 20000 else None, "class": cls}
